@@ -28,6 +28,7 @@ import (
 	"strings"
 	"sync"
 	"sync/atomic"
+	"syscall"
 	"time"
 
 	"github.com/gorilla/websocket"
@@ -39,7 +40,7 @@ import (
 // ---- cases ----
 
 type LookupEntry struct {
-	Domain  string `json:"domain"` // hex
+	Domain  string `json:"domain"`           // hex
 	Err     bool   `json:"err,omitempty"`    // the lookup returns a non-nil error
 	NoDest  bool   `json:"nodest,omitempty"` // the lookup returns a nil *Dest
 	Name    string `json:"name,omitempty"`   // hex
@@ -55,13 +56,13 @@ type RouteCase struct {
 	SNI       string        `json:"sni"`       // hex
 	IsIP      bool          `json:"is_ip"`     // net.ParseIP(sni) != nil
 	// observed
-	Rejected   bool   `json:"rejected"`    // isRejectedDomain(sni)
-	Dialed     bool   `json:"dialed"`      // hostConn reached the dialer
-	DialName   string `json:"dial_name"`   // hex: the name the dialer was given
-	DialAddr   string `json:"dial_addr"`   // the address the dialer was given
-	FrontAddr  string `json:"front_addr"`  // RemoteAddr of the front connection
-	HostErr    string `json:"host_err"`    // rejected | hello:<..> | dial
-	Decision   string `json:"decision"`    // result of Server.dial (when dialed)
+	Rejected    bool   `json:"rejected"`     // isRejectedDomain(sni)
+	Dialed      bool   `json:"dialed"`       // hostConn reached the dialer
+	DialName    string `json:"dial_name"`    // hex: the name the dialer was given
+	DialAddr    string `json:"dial_addr"`    // the address the dialer was given
+	FrontAddr   string `json:"front_addr"`   // RemoteAddr of the front connection
+	HostErr     string `json:"host_err"`     // rejected | hello:<..> | dial
+	Decision    string `json:"decision"`     // result of Server.dial (when dialed)
 	DecisionArg string `json:"decision_arg"` // hex
 }
 
@@ -72,11 +73,11 @@ type RejectCase struct {
 }
 
 type OfficeOp struct {
-	Op   string `json:"op"` // next | newbox | deliver | receive | cleanup
-	ID   string `json:"id,omitempty"`
-	Key  string `json:"key,omitempty"`
-	Tag  string `json:"tag,omitempty"`
-	H    int    `json:"h"`
+	Op  string `json:"op"` // next | newbox | deliver | receive | cleanup
+	ID  string `json:"id,omitempty"`
+	Key string `json:"key,omitempty"`
+	Tag string `json:"tag,omitempty"`
+	H   int    `json:"h"`
 	// observed
 	Res  string `json:"res"`            // id | handle | ok | notfound | mismatch | conn | closed | blocked | done
 	Val  string `json:"val,omitempty"`  // id, handle or tag
@@ -84,12 +85,12 @@ type OfficeOp struct {
 }
 
 type ConnsOp struct {
-	Op    string `json:"op"` // add | get | remove | shutdown
-	ID    string `json:"id,omitempty"`
-	Ident string `json:"ident,omitempty"`
-	Res   string `json:"res"`
-	Sess  string `json:"sess,omitempty"`
-	Got   string `json:"got,omitempty"`
+	Op    string      `json:"op"` // add | get | remove | shutdown
+	ID    string      `json:"id,omitempty"`
+	Ident string      `json:"ident,omitempty"`
+	Res   string      `json:"res"`
+	Sess  string      `json:"sess,omitempty"`
+	Got   string      `json:"got,omitempty"`
 	All   [][2]string `json:"all,omitempty"`
 }
 
@@ -142,39 +143,39 @@ type HistCase struct {
 type RaceCase struct {
 	Dials    int      `json:"dials"`
 	Forgers  int      `json:"forgers"`
-	IDs      []uint64 `json:"ids"`      // id of each dial
-	Got      []string `json:"got"`      // per dial: tag received, or closed/timeout
-	Crossed  []string `json:"crossed"`  // descriptions of dials that got a connection not made for them
+	IDs      []uint64 `json:"ids"`       // id of each dial
+	Got      []string `json:"got"`       // per dial: tag received, or closed/timeout
+	Crossed  []string `json:"crossed"`   // descriptions of dials that got a connection not made for them
 	ForgedOK int      `json:"forged_ok"` // forged deliveries (wrong key) that were not refused
-	Left     int      `json:"left"`     // boxes still filed at the end
+	Left     int      `json:"left"`      // boxes still filed at the end
 }
 
 // RegenCase: two registrations of one name (two offices); the stale side
 // connection of the first arrives at the second with the same id.
 type RegenCase struct {
-	ID       string     `json:"id"`
-	Key1     string     `json:"key1"`
-	Key2     string     `json:"key2"`
-	Office   []OfficeOp `json:"office"` // the operations on the second office
+	ID     string     `json:"id"`
+	Key1   string     `json:"key1"`
+	Key2   string     `json:"key2"`
+	Office []OfficeOp `json:"office"` // the operations on the second office
 }
 
 type Case struct {
-	I      int        `json:"i"`
-	Stream string     `json:"stream"`
-	Route  *RouteCase `json:"route,omitempty"`
+	I      int         `json:"i"`
+	Stream string      `json:"stream"`
+	Route  *RouteCase  `json:"route,omitempty"`
 	Reject *RejectCase `json:"reject,omitempty"`
-	Office []OfficeOp `json:"office,omitempty"`
-	Conns  []ConnsOp  `json:"conns,omitempty"`
-	IDs    [][]uint64 `json:"ids,omitempty"`
-	Race   *RaceCase  `json:"race,omitempty"`
-	Regen  *RegenCase `json:"regen,omitempty"`
-	E2E    *E2E       `json:"e2e,omitempty"`
+	Office []OfficeOp  `json:"office,omitempty"`
+	Conns  []ConnsOp   `json:"conns,omitempty"`
+	IDs    [][]uint64  `json:"ids,omitempty"`
+	Race   *RaceCase   `json:"race,omitempty"`
+	Regen  *RegenCase  `json:"regen,omitempty"`
+	E2E    *E2E        `json:"e2e,omitempty"`
 	Refuse *RefuseCase `json:"refuse,omitempty"`
 	Hist   *HistCase   `json:"hist,omitempty"`
-	Crash  string     `json:"crash,omitempty"`
+	Crash  string      `json:"crash,omitempty"`
 }
 
-func hx16(s string) string { return hex.EncodeToString([]byte(s)) }
+func hx16(s string) string  { return hex.EncodeToString([]byte(s)) }
 func unhex(s string) string { b, _ := hex.DecodeString(s); return string(b) }
 
 // ---- scripted front connection ----
@@ -972,7 +973,9 @@ func runE2E(r *hx.Rng, mode string, neps, nconns int) *E2E {
 		}
 	}
 	mu.Unlock()
-	sort.Slice(res.Failures, func(i, j int) bool { return res.Failures[i].Tag+res.Failures[i].Kind < res.Failures[j].Tag+res.Failures[j].Kind })
+	sort.Slice(res.Failures, func(i, j int) bool {
+		return res.Failures[i].Tag+res.Failures[i].Kind < res.Failures[j].Tag+res.Failures[j].Kind
+	})
 	sort.Slice(res.Addrs, func(i, j int) bool { return res.Addrs[i].Front < res.Addrs[j].Front })
 	if len(res.Addrs) > 6 {
 		res.Addrs = res.Addrs[:6]
@@ -992,27 +995,27 @@ func runE2E(r *hx.Rng, mode string, neps, nconns int) *E2E {
 // accept a connection or read a byte because of it.
 
 type RefuseObs struct {
-	World    string `json:"world"`
-	Scenario string `json:"scenario"`
-	Expect   string `json:"expect"` // "refused" or the endpoint that must serve it
-	Sent     int    `json:"sent"`
-	Got      int    `json:"got"`      // bytes the client received
-	Reply    string `json:"reply"`    // first line received (served scenarios)
-	End      string `json:"end"`      // closed | hung | open
-	Accepted int64  `json:"accepted"` // connections accepted at any endpoint because of this scenario
-	Bytes    int64  `json:"bytes"`    // bytes read at any endpoint because of this scenario
-	Where    string `json:"where,omitempty"` // which endpoints
-	Lookups     int `json:"lookups"`      // calls of the configured Lookup this connection caused
-	WantLookups int `json:"want_lookups"` // one per sniffed, not rejected hello on a server with a lookup
+	World       string `json:"world"`
+	Scenario    string `json:"scenario"`
+	Expect      string `json:"expect"` // "refused" or the endpoint that must serve it
+	Sent        int    `json:"sent"`
+	Got         int    `json:"got"`             // bytes the client received
+	Reply       string `json:"reply"`           // first line received (served scenarios)
+	End         string `json:"end"`             // closed | hung | open
+	Accepted    int64  `json:"accepted"`        // connections accepted at any endpoint because of this scenario
+	Bytes       int64  `json:"bytes"`           // bytes read at any endpoint because of this scenario
+	Where       string `json:"where,omitempty"` // which endpoints
+	Lookups     int    `json:"lookups"`         // calls of the configured Lookup this connection caused
+	WantLookups int    `json:"want_lookups"`    // one per sniffed, not rejected hello on a server with a lookup
 	// the scenario as the model sees it
-	SniffOK   bool         `json:"sniff_ok"`            // HelloInfo can succeed on the payload
-	Name      string       `json:"name"`                // hex: the server name HelloInfo reports
+	SniffOK   bool         `json:"sniff_ok"` // HelloInfo can succeed on the payload
+	Name      string       `json:"name"`     // hex: the server name HelloInfo reports
 	IsIP      bool         `json:"is_ip"`
 	HasLookup bool         `json:"has_lookup"`
 	HasHome   bool         `json:"has_home"`
-	Entry     *LookupEntry `json:"entry,omitempty"`     // what the lookup returns for the name
-	Endpoints []string     `json:"endpoints"`           // hex: connected endpoints
-	DialOK    bool         `json:"dial_ok"`             // the dial of a selected destination can succeed
+	Entry     *LookupEntry `json:"entry,omitempty"` // what the lookup returns for the name
+	Endpoints []string     `json:"endpoints"`       // hex: connected endpoints
+	DialOK    bool         `json:"dial_ok"`         // the dial of a selected destination can succeed
 }
 
 // MisObs: after hellos whose read failed with an I/O error, several good
@@ -1290,15 +1293,11 @@ func runRefuse(r *hx.Rng, mode string) *RefuseCase {
 		return rw, nil
 	}
 
-	// a port nothing listens on
-	closedPort := func() string {
-		l, err := net.Listen("tcp", "127.0.0.1:0")
-		if err != nil {
-			return "127.0.0.1:1"
-		}
-		defer l.Close()
-		return l.Addr().String()
-	}()
+	// a port nothing listens on: a socket that is bound but never listens, kept until this function returns,
+	// so that the kernel cannot hand the port to one of the worlds' own listeners meanwhile (it did once:
+	// world C's front listener got the released port and the forward scenario dialled the proxy itself)
+	closedPort, releasePort := boundNotListening()
+	defer releasePort()
 
 	// ---- world A: everything a configured server can refuse
 	lookupA := func(domain string) (*sniproxy.Dest, error) {
@@ -1675,9 +1674,9 @@ func plan(seed uint64, n int, e2eRounds int, only string) []spec {
 		}
 		return ss
 	}
-	ss = append(ss, spec{stream: "regen", seed: r.U64()}) // corpus: stale side connection after re-registration
+	ss = append(ss, spec{stream: "regen", seed: r.U64()})      // corpus: stale side connection after re-registration
 	ss = append(ss, spec{stream: "hist", seed: r.U64(), a: 1}) // corpus: the lookup's answer changes between dials
-	for _, m := range e2e.Modes { // every refusal path of hostConn, end to end, in each tunnel mode
+	for _, m := range e2e.Modes {                              // every refusal path of hostConn, end to end, in each tunnel mode
 		ss = append(ss, spec{stream: "refuse", seed: r.U64(), mode: m})
 	}
 	for k := 1; k <= 5; k++ { // corpus: lookup results (dest, err), (nil, nil), (home, err), (forward, err), a case variant of a connected endpoint
@@ -1788,4 +1787,24 @@ func main() {
 		fmt.Fprintln(os.Stderr, err)
 		os.Exit(2)
 	}
+}
+
+// boundNotListening reserves a loopback TCP port that refuses connections: the socket is bound, never
+// listens, and stays open until release is called.
+func boundNotListening() (addr string, release func()) {
+	fd, err := syscall.Socket(syscall.AF_INET, syscall.SOCK_STREAM, 0)
+	if err != nil {
+		return "127.0.0.1:1", func() {}
+	}
+	if err := syscall.Bind(fd, &syscall.SockaddrInet4{Port: 0, Addr: [4]byte{127, 0, 0, 1}}); err != nil {
+		syscall.Close(fd)
+		return "127.0.0.1:1", func() {}
+	}
+	sa, err := syscall.Getsockname(fd)
+	in4, ok := sa.(*syscall.SockaddrInet4)
+	if err != nil || !ok {
+		syscall.Close(fd)
+		return "127.0.0.1:1", func() {}
+	}
+	return fmt.Sprintf("127.0.0.1:%d", in4.Port), func() { syscall.Close(fd) }
 }
